@@ -9,7 +9,8 @@ import _std
 from vlib import lgen, schemas, variants, run as R
 
 META = {}
-SKIP = {'named_args_reordered'} | {s_['name'] for s_ in lgen.RECURSION + lgen.WORKFLOW}   # core fragment only:
+SKIP = {'named_args_reordered'} | {s_['name'] for s_ in lgen.RECURSION + lgen.WORKFLOW} | \
+    {s_['name'] for s_ in lgen.ALL if s_['name'].startswith('rec_')}   # core fragment only:
 # plan annotations on predicates that recursion unfolding clones end in diagnostics, which is outside this property
 ANN = ['', '@NoInject(%s);', '@With(%s);', '@NoWith(%s);', '@Ground(%s);', '@NoWith(%s);\n@NoInject(%s);']
 
